@@ -1,8 +1,8 @@
-(* Proofs/LayoutProofs.v — read-after-write for straight-line table layouts (Model/Layout.v):
+(* Proofs/TableLayoutProofs.v — read-after-write for straight-line table layouts (Model/TableLayout.v):
    signed and unsigned primitives, fixed-size byte arrays, and the generic theorem
    `layout_roundtrip` for any reader/writer pair that passes the decidable `compat` test. *)
 From AV Require Import Base.Prelude Base.Lemmas Gen.ReaderPrims Model.Reader Model.ReaderExt
-  Proofs.ReaderProofs Proofs.EncodeProofs Model.Layout.
+  Proofs.ReaderProofs Proofs.EncodeProofs Model.TableLayout.
 From Coq Require Import ZifyBool ZifyNat.
 Ltac Zify.zify_post_hook ::= Z.div_mod_to_equations.
 Open Scope Z_scope.
